@@ -73,6 +73,10 @@ def e2e_cases(prop, tier, seed):
     cases = []
     for i in range(n):
         mods = rng.choice(["core", "xquery", "class"])
+        if prop in ("C05", "C06"):
+            mods = rng.choice(["xquery", "xquery", "class"])
+        if prop == "C11":
+            mods = "class"
         cfg = rand_cfg(rng, mods, timeout=rng.choice([0, 0, 0, 1]))
         if prop == "C09":
             cfg.logs = rng.choice(LOGS_SECTIONS)
@@ -120,7 +124,7 @@ def e2e_canon(rec, names=None):
     return cr
 
 
-E2E_PROPS = {"C01", "C08", "C09", "C10", "C17"}
+E2E_PROPS = {"C01", "C02", "C03", "C05", "C06", "C08", "C09", "C10", "C11", "C17"}
 
 
 def extra_runs(prop, tier, seed, wd):
